@@ -26,7 +26,9 @@ class Chunk:
 
     def noise(self, rng):
         for _ in range(rng.choice([0, 0, 1, 2])):
-            self.add(rng.choice(["", "", "// a comment", "   ", "# another", "/* block */", "\t", "  // indented comment"]))
+            self.add(rng.choice(["", "", "// a comment", "   ", "# another", "/* block */", "\t", "  // indented comment",
+                                 # an interpolated string re-enters the parser in the middle of the chunk; it must not disturb the chunk's positions or file name
+                                 "\"n${1 + 1}\"", "  \"${2}\" + \"t\""]))
 
     def source(self):
         return self.eol.join(self.lines) + self.eol
@@ -57,7 +59,8 @@ def build(rng, idx, usedir):
             ch.add("%sglobal %s = fun(a) {" % (ind0, fname))
         for fi in range(rng.randrange(0, 3)):
             # filler names are unique within the function (a repeated name would be a 'Variable redefined' fault of its own)
-            ch.add("%s  %s" % (ind0, rng.choice(["var t%d_%d = a + %d" % (rng.randrange(1000), fi, rng.randrange(9)), "// filler", "", "a + 1", "var s%d_%d = \"x\"" % (rng.randrange(1000), fi)])))
+            ch.add("%s  %s" % (ind0, rng.choice(["var t%d_%d = a + %d" % (rng.randrange(1000), fi, rng.randrange(9)), "// filler", "", "a + 1", "var s%d_%d = \"x\"" % (rng.randrange(1000), fi),
+                                                     "var i%d_%d = \"a=${a}.\"" % (rng.randrange(1000), fi), "\"${a + 1}\""])))
             ch.noise(rng)
         ind = ind0 + rng.choice(["  ", "    ", "\t", "      "])
         if level == 0:
